@@ -18,3 +18,10 @@ const (
 	cr = '\r'
 	lf = '\n'
 )
+
+const (
+	// maxBulkLength is the maximum declared length of a bulk string (the proto-max-bulk-len default of Redis).
+	maxBulkLength = 512 * 1024 * 1024
+	// maxArrayLength is the maximum declared element count of an array (the multibulk limit of Redis).
+	maxArrayLength = 1024 * 1024
+)
